@@ -12,7 +12,9 @@ import (
 	"os"
 	"os/exec"
 	"reflect"
+	"runtime"
 	"strings"
+	"sync"
 	"testing"
 	"time"
 
@@ -875,4 +877,98 @@ func TestReplay(t *testing.T) {
 	TestPanicBehaviour(t)
 	TestFatalBehaviour(t)
 	TestFilteredEventsInertAllMethods(t)
+}
+
+// ---------------------------------------------------------------- the gate while the global level moves
+
+type gateRec struct {
+	mu  sync.Mutex
+	got []string
+	bad string
+}
+
+func (g *gateRec) Write(p []byte) (int, error) { return g.WriteLevel(zerolog.NoLevel, p) }
+func (g *gateRec) WriteLevel(l zerolog.Level, p []byte) (int, error) {
+	g.mu.Lock()
+	g.got = append(g.got, fmt.Sprintf("%d|%s", l, p))
+	g.mu.Unlock()
+	return len(p), nil
+}
+
+// TestGateUnderConcurrentGlobalChanges: while another goroutine moves the global level up and down,
+// a logger's own level still holds: nothing below it is ever written, whatever the global level was
+// at any moment, and what is written carries its own level.
+func TestGateUnderConcurrentGlobalChanges(t *testing.T) {
+	defer zerolog.SetGlobalLevel(zerolog.TraceLevel)
+	rapid.Check(t, func(rt *rapid.T) {
+		ng := rapid.IntRange(1, 4).Draw(rt, "G")
+		n := rapid.IntRange(200, 1500).Draw(rt, "N")
+		globals := rapid.SampledFrom([][]zerolog.Level{{-1, 0}, {-1, 1, 0}, {0, 3, -1, 7}, {-1, 2}}).Draw(rt, "globals")
+		w := &gateRec{}
+		stop := make(chan struct{})
+		var tg, wg sync.WaitGroup
+		tg.Add(1)
+		go func() {
+			defer tg.Done()
+			for i := 0; ; i++ {
+				select {
+				case <-stop:
+					return
+				default:
+				}
+				zerolog.SetGlobalLevel(globals[i%len(globals)])
+				if i%64 == 0 {
+					runtime.Gosched()
+				}
+			}
+		}()
+		own := []zerolog.Level{zerolog.ErrorLevel, zerolog.WarnLevel, zerolog.InfoLevel, zerolog.DebugLevel}
+		for g := 0; g < ng; g++ {
+			g := g
+			wg.Add(1)
+			go func() {
+				defer wg.Done()
+				ls := make([]zerolog.Logger, len(own))
+				for i, lv := range own {
+					ls[i] = zerolog.New(w).Level(lv)
+				}
+				for i := 0; i < n; i++ {
+					k := (g + i) % len(own)
+					lv := zerolog.Level(i%6 - 1) // trace .. fatal-as-level (WithLevel never exits)
+					ls[k].WithLevel(lv).Int("own", int(own[k])).Int("lv", int(lv)).Send()
+				}
+			}()
+		}
+		wg.Wait()
+		close(stop)
+		tg.Wait()
+		zerolog.SetGlobalLevel(zerolog.TraceLevel)
+		rec.Case([]byte(fmt.Sprintf("gate G=%d N=%d globals=%v", ng, n, globals)), true, "gate-concurrent-global")
+		for _, s := range w.got {
+			var wl, ownLv, lv int
+			var lvlText string
+			bar := strings.IndexByte(s, '|')
+			fmt.Sscanf(s[:bar], "%d", &wl)
+			var m map[string]interface{}
+			if err := json.Unmarshal([]byte(s[bar+1:]), &m); err != nil {
+				rt.Fatalf("HARNESS-ERROR: %v in %q", err, s)
+			}
+			ownLv, lv = int(m["own"].(float64)), int(m["lv"].(float64))
+			lvlText, _ = m["level"].(string)
+			bad := ""
+			switch {
+			case lv < ownLv:
+				bad = fmt.Sprintf("a logger at level %d wrote an event of level %d while the global level was being changed by another goroutine: %s", ownLv, lv, s)
+			case wl != lv:
+				bad = fmt.Sprintf("WriteLevel received level %d for an event of level %d: %s", wl, lv, s)
+			case lvlText != zerolog.Level(lv).String():
+				bad = fmt.Sprintf("event of level %d carries level text %q: %s", lv, lvlText, s)
+			}
+			if bad != "" {
+				ev.SaveReplay("C04-gate", inertFail{"gate under concurrent SetGlobalLevel", "", bad})
+				fmt.Printf("VERIF-FAIL: %s\n", bad)
+				rt.Fatalf("%s", bad)
+			}
+		}
+	})
 }
